@@ -180,6 +180,15 @@ func (db *DB) calculateStartOffset(
 			// If start is inexact, we must use the lower approximation. (Note that the
 			// start is only inexact because of domain cutoff).
 			sampleOffset = approxDist.Lower
+			if sampleOffset == 0 {
+				// Nothing is kept at the head of the domain: there is no previous
+				// sample to snap to.
+				byteOff, err := db.resolveByteOffset(ctx, domainStart, sampleOffset)
+				if err != nil {
+					return 0, 0, err
+				}
+				return byteOff, ts, nil
+			}
 			approxStamp, err = db.index().Stamp(
 				ctx,
 				domainStart,
@@ -189,7 +198,7 @@ func (db *DB) calculateStartOffset(
 			if err != nil {
 				return 0, 0, err
 			}
-			ts = approxStamp.Lower + 1
+			ts = approxStamp.Upper + 1
 		} else {
 			approxStamp, err = db.index().Stamp(
 				ctx,
@@ -251,7 +260,7 @@ func (db *DB) calculateEndOffset(
 			); err != nil {
 				return 0, 0, err
 			}
-			ts = approxStamp.Lower
+			ts = approxStamp.Upper
 		} else if !approxDist.StartExact {
 			// If start is inexact, we must use the lower approximation. (Note that the
 			// start is only inexact because of domain cutoff).
